@@ -131,6 +131,11 @@ def stepLine (s : State) (toks : List String) : State × String :=
     | some cap => (init cap, "ok")
     | none => (s, "bad-op")
   | ["dump"] => (s, dump s)
+  | ["pseudonym", t, i, a] =>
+    -- CommunicationManager.load: `pseudonym <hidden tunnel community loaded> <identity cid> <attestation cid>`
+    match bool? t, Proto.ofHex? i, Proto.ofHex? a with
+    | some ht, some ic, some ac => (runState s (pseudonymOps ht ic ac), s!"- q={s.queue.length}")
+    | _, _, _ => (s, "bad-op")
   | ["service", st, ovs] =>
     -- IPv8.__init__: `service <enable_statistics> [cid:anon,cid:anon,…]`
     let parsed : Option (List (Bytes × Bool)) := do
